@@ -166,6 +166,56 @@ Theorem C19_from_to_roundtrip (st it ii : bool) (m : fmodel) (ix : pindex) (c : 
 Proof. exact (from_to_roundtrip_same_dtype st it ii m ix c). Qed.
 Print Assumptions C19_from_to_roundtrip.
 
+(* ---- order of periods and the pairing label <-> value, for every kind of span ---- *)
+
+(* from_dataframe's four-way isinstance test: exactly DatetimeIndex, MultiIndex, PeriodIndex and TimedeltaIndex are kept as
+   the pandas index object; everything else (RangeIndex, Index of any dtype) goes through list(index) *)
+Theorem C19_kept_index_kinds (k : ikind) :
+  is_time_index k = true <-> k = KDatetimeIndex \/ k = KMultiIndex \/ k = KPeriodIndex \/ k = KTimedeltaIndex.
+Proof. exact (is_time_index_spec k). Qed.
+Print Assumptions C19_kept_index_kinds.
+
+(* a span that is a pandas index object (any kind, any label order, repeated labels allowed; tuples for a MultiIndex) is the
+   table's index as it is, and from_dataframe gives the same object back for the four kinds, the same labels as a list otherwise *)
+Theorem C19_pandas_span_roundtrip (k : ikind) (d : pdt) (ls : list cell) :
+  pd_index (mkSpan (SPandas k d) ls) = Some (mkIndex k d ls) /\
+  (is_time_index k = true -> span_of_index (mkIndex k d ls) = mkSpan (SPandas k d) ls) /\
+  (is_time_index k = false -> span_of_index (mkIndex k d ls) = mkSpan SList ls).
+Proof. exact (pandas_span_roundtrip k d ls). Qed.
+Print Assumptions C19_pandas_span_roundtrip.
+
+(* from_dataframe of ANY table never sorts, drops or merges rows: the span is the index in table order (same length, same
+   order, duplicates kept; kind by the four-way test) and the i-th cell of every variable is the cast of the i-th cell of
+   its column *)
+Theorem C19_from_dataframe_rowwise (c : mclass) (t : table) (m : fmodel) :
+  from_table c t = TOk m ->
+  splabels (fspan m) = ilabels (tindex t) /\
+  spkind (fspan m) = (if is_time_index (ikd (tindex t)) then SPandas (ikd (tindex t)) (idt (tindex t)) else SList) /\
+  forall k s col, In (k, s) (fvars m) -> find_col k (tcols t) = Some col ->
+    Forall2 (fun x y => np_cast (cdtype c) x = TOk y) (pccells col) (scells s).
+Proof. exact (from_table_rowwise c t m). Qed.
+Print Assumptions C19_from_dataframe_rowwise.
+
+(* the round trip position by position: period i of the rebuilt model has the label of period i of the original and every
+   variable has at position i the value it had — for every kind of span; a span of one of the four kept kinds comes back
+   identical (kind, dtype, labels in order) *)
+Theorem C19_from_to_order_and_pairing (st it ii : bool) (m : fmodel) (ix : pindex) (c : mclass) :
+  wf_model m (length (splabels (fspan m))) -> pd_index (fspan m) = Some ix -> span_stable (fspan m) = true ->
+  cnames c = fnames m ->
+  (ii = true \/ forall k, In k (fnames m) -> starts_underscore k = false) ->
+  (cstrict c = true -> st = false /\ it = false) ->
+  (forall k, In k (fnames m) -> mem_s k init_params = false) ->
+  (forall k s, In k (fnames m) -> assoc_s k (fvars m) = Some s ->
+     sdt s = cdtype c /\ sdt s <> NObj /\ forallb (cell_has_dtype (cdtype c)) (scells s) = true) ->
+  exists t m', model_to_table st it ii m = TOk t /\ from_table c t = TOk m' /\
+    length (splabels (fspan m')) = length (splabels (fspan m)) /\
+    (forall i, nth_error (splabels (fspan m')) i = nth_error (splabels (fspan m)) i) /\
+    (forall k s, In k (fnames m) -> assoc_s k (fvars m) = Some s ->
+       exists s', assoc_s k (fvars m') = Some s' /\ forall i, nth_error (scells s') i = nth_error (scells s) i) /\
+    (forall k d, spkind (fspan m) = SPandas k d -> is_time_index k = true -> fspan m' = fspan m).
+Proof. exact (from_to_order_and_pairing st it ii m ix c). Qed.
+Print Assumptions C19_from_to_order_and_pairing.
+
 (* with dtype=object every cell of every series (float, int, bool, text, any mixture of dtypes) comes back unchanged *)
 Theorem C19_from_to_roundtrip_object (st it ii : bool) (m : fmodel) (ix : pindex) (c : mclass) :
   wf_model m (length (splabels (fspan m))) -> pd_index (fspan m) = Some ix -> span_stable (fspan m) = true ->
